@@ -344,7 +344,9 @@ func (a *remoteAuthorizer) calculateCacheKey(sub *subject.Subject, values map[st
 	hash.Write(a.e.Hash())
 	hash.Write(stringx.ToBytes(a.id))
 	hash.Write(stringx.ToBytes(strings.Join(a.headersForUpstream, ",")))
+	hash.Write([]byte{0})
 	hash.Write(stringx.ToBytes(payload))
+	hash.Write([]byte{0})
 	hash.Write(ttlBytes)
 	hash.Write(sub.Hash())
 
